@@ -311,11 +311,15 @@ impl ModuleS {
 
 pub struct Printer {
     pub style: NumStyle,
+    /// write the attributes of a type in reverse order, one `#[..]` per attribute
+    pub reverse_type_attrs: bool,
+    /// write doc comments after the other attributes of an item instead of before them
+    pub docs_after_attrs: bool,
 }
 
 impl Default for Printer {
     fn default() -> Self {
-        Printer { style: NumStyle::Dec }
+        Printer { style: NumStyle::Dec, reverse_type_attrs: false, docs_after_attrs: false }
     }
 }
 
@@ -329,7 +333,9 @@ impl Printer {
         }
     }
     pub fn func(&self, out: &mut String, indent: &str, f: &FuncS) {
-        self.docs(out, indent, &f.doc);
+        if !self.docs_after_attrs {
+            self.docs(out, indent, &f.doc);
+        }
         let mut attrs = vec![];
         if let Some(a) = f.address {
             attrs.push(format!("address({})", self.n(a)));
@@ -343,6 +349,9 @@ impl Printer {
         attrs.extend(f.extra_attrs.iter().cloned());
         if !attrs.is_empty() {
             let _ = writeln!(out, "{indent}#[{}]", attrs.join(", "));
+        }
+        if self.docs_after_attrs {
+            self.docs(out, indent, &f.doc);
         }
         let mut args = vec![];
         match f.recv {
@@ -392,10 +401,19 @@ impl Printer {
         attrs
     }
     pub fn type_(&self, out: &mut String, t: &TypeS) {
-        self.docs(out, "", &t.doc);
+        if !self.docs_after_attrs {
+            self.docs(out, "", &t.doc);
+        }
         let attrs = self.type_attrs(t);
-        if !attrs.is_empty() {
+        if self.reverse_type_attrs {
+            for a in attrs.iter().rev() {
+                let _ = writeln!(out, "#[{a}]");
+            }
+        } else if !attrs.is_empty() {
             let _ = writeln!(out, "#[{}]", attrs.join(", "));
+        }
+        if self.docs_after_attrs {
+            self.docs(out, "", &t.doc);
         }
         let _ = writeln!(out, "{}type {} {{", if t.public { "pub " } else { "" }, t.name);
         if let Some(v) = &t.vft {
@@ -409,7 +427,9 @@ impl Printer {
             let _ = writeln!(out, "    }},");
         }
         for f in &t.fields {
-            self.docs(out, "    ", &f.doc);
+            if !self.docs_after_attrs {
+                self.docs(out, "    ", &f.doc);
+            }
             let mut attrs = vec![];
             if f.base {
                 attrs.push("base".to_string());
@@ -420,6 +440,9 @@ impl Printer {
             attrs.extend(f.extra_attrs.iter().cloned());
             if !attrs.is_empty() {
                 let _ = writeln!(out, "    #[{}]", attrs.join(", "));
+            }
+            if self.docs_after_attrs {
+                self.docs(out, "    ", &f.doc);
             }
             let _ = writeln!(
                 out,
@@ -432,7 +455,9 @@ impl Printer {
         let _ = writeln!(out, "}}");
     }
     pub fn enum_(&self, out: &mut String, e: &EnumS) {
-        self.docs(out, "", &e.doc);
+        if !self.docs_after_attrs {
+            self.docs(out, "", &e.doc);
+        }
         let mut attrs = vec![];
         if let Some(a) = e.singleton {
             attrs.push(format!("singleton({})", self.n(a)));
@@ -449,6 +474,9 @@ impl Printer {
         attrs.extend(e.extra_attrs.iter().cloned());
         if !attrs.is_empty() {
             let _ = writeln!(out, "#[{}]", attrs.join(", "));
+        }
+        if self.docs_after_attrs {
+            self.docs(out, "", &e.doc);
         }
         let _ = writeln!(
             out,
